@@ -575,11 +575,18 @@ class Dataset(AbstractDataset, dict, OpMixin, GetSetDelAttrMixin):
                 raise TypeError("mapper must be callable")
             iterkeys = [(old, mapper(old)) for old in ds.keys()]
 
-        for old, new in iterkeys:
-            val = super(Dataset, ds).__getitem__(old) # same as ds[old]
-            super(Dataset, ds).__setitem__(new, val)
-            if old != new:
-                super(Dataset, ds).__delitem__(old)
+        # look up all variables before renaming any (a new name may be the old name of another variable)
+        mapping = dict(iterkeys)
+        for old in mapping:
+            super(Dataset, ds).__getitem__(old) # KeyError if not present
+        items = [(mapping.get(k, k), super(Dataset, ds).__getitem__(k)) for k in list(ds.keys())]
+        newkeys = [k for k, val in items]
+        if len(set(newkeys)) != len(newkeys):
+            raise ValueError("duplicate variable names: {}".format(newkeys))
+        for k in list(ds.keys()):
+            super(Dataset, ds).__delitem__(k)
+        for k, val in items:
+            super(Dataset, ds).__setitem__(k, val)
 
         if not inplace:
             return ds
